@@ -24,6 +24,9 @@ func (c *Client) runRaw() {
 		if op.AtMs > 0 {
 			simrt.Sleep(time.Duration(op.AtMs) * time.Millisecond)
 		}
+		if c.closed || c.stopped {
+			break // the run is being wound up (every client vanishes): a vanished client sends nothing more
+		}
 		switch op.Op {
 		case "wait":
 		case "http":
